@@ -38,17 +38,20 @@ PROPS = {
     },
     "C05": {
         "module": "Cdecao.Props.C05",
-        "theorems": ["Props.C05_regs", "Props.C05_courses", "Props.C05_no_cancelled_assignment", "Props.C05_consistent", "Props.C05_consistent_anyKeys"],
+        "extra_modules": ["Cdecao.Props.C05E2E"],
+        "theorems": ["Props.C05_regs", "Props.C05_courses", "Props.C05_no_cancelled_assignment", "Props.C05_consistent", "Props.C05_consistent_anyKeys",
+                     "Props.C05_end_to_end", "Props.C05_end_to_end_anyKeys", "Props.C05_total_end_to_end", "Props.C05_total_from_start", "Props.cde_finished_done"],
         "streams": ["e2e-cde", "node", "node-rooms"],
     },
     "C06": {
         "module": "Cdecao.Props.C06",
         "theorems": ["Props.C06", "Props.C06_node", "Props.C06_exec"],
-        "streams": ["node-rooms", "solve-rooms"],
+        "streams": ["node-rooms", "solve-rooms", "e2e-cde"],
     },
     "C07": {
         "module": "Cdecao.Props.C07",
-        "theorems": ["Props.C07_partial", "Props.C07_total", "Props.C07_exec"],
+        "theorems": ["Props.C07_partial", "Props.C07_total", "Props.C07_exec", "Props.C07_i32", "Props.C07_i32_conv", "Props.C07_i32_eq", "Props.C07_i32_caobab",
+                     "Props.C07_i32_partial", "Props.C07_i32_total"],
         "streams": ["hungarian"],
     },
     "C08": {
@@ -69,7 +72,8 @@ PROPS = {
     },
     "C11": {
         "module": "Cdecao.Props.C11",
-        "theorems": ["Props.C11_max", "Props.C11_min", "Props.C11_min_le_max", "Props.C11_fixed", "Props.C11_fixed_written", "Props.C11_consistent"],
+        "extra_modules": ["Cdecao.Props.C05E2E"],
+        "theorems": ["Props.C11_max", "Props.C11_min", "Props.C11_min_le_max", "Props.C11_fixed", "Props.C11_fixed_written", "Props.C11_consistent", "Props.C11_end_to_end"],
         "streams": ["cdedb-read", "e2e-cde", "node", "node-rooms"],
     },
     "C12": {
@@ -138,19 +142,19 @@ LEVELS = {
             "note": _ENG + " Partial only inside the F1 class (instructors with own choices of non-fixed courses), where `Bounded` is not proved."},
     "C04": {"text": "Theorems Props.C04_no_deadlock, C04_done_means_finished, C04_stats_step, C04_bounded_work C04_exactly_once_at_done (ghost history: at AllDone the multiset of generated subproblems = solved ⊎ bounded, none twice, none lost, and the counters are the lengths), C04_run_bound_init (a run from init with at most s wake events has at most W root + 3T + 3(T² + s) non-wake events) and C04_stats_at_done (at AllDone: executed = no-solution + infeasible + feasible and generated = executed + bound, for every reachable run of the product system), C04_done_absorbing, over the engine model; the budget hypothesis is discharged for caobab by C04_caobab_wf / C04_caobab_budget / C04_caobab_run_bound / C04_caobab_gen_bound (for EVERY instance and room arithmetic the child relation of run_bab_node's model is well-founded, treeSize is defined by well-founded recursion, 5·treeSize is a budget, every run has at most 5·treeSize + 3T + 3(T²+s) non-wake events and generates at most treeSize subproblems); TERMINATION (Engine/Terminate.lean): C04_terminates (from every reachable configuration some wake-free continuation finishes within the bound and EVERY wake-free continuation extends to a finishing one within the same bound — no scheduler choice among non-wake events avoids termination), C04_terminates_maximal (a run can only stop when all workers have stopped), C04_terminates_infinite / C04_terminates_spurious (an infinite run contains infinitely many wake-ups, and — with notify_one-caused wake-ups counted by a ghost layer and bounded by the number of generated subproblems — infinitely many SPURIOUS ones), C04_terminates_optimal (the finishing configuration holds an optimal incumbent), C04_caobab_terminates / C04_caobab_no_infinite_run (the same for caobab::solve with no hypothesis on the instance); all T >= 1 and schedules incl. spurious wake-ups; every real run under the shim is replayed through the model with all six counters compared, and the shim's deadlock detector and step budget watch the real code.",
             "note": _ENG},
-    "C05": {"text": "Props.C05_consistent (assembled: reader ∘ any HardOK assignment ∘ writer): for every export the reader accepts and every assignment satisfying the hard constraints of the problem that was read, the written registrations/courses objects name only registrations of the export with status participant in the selected part (never an ignored pre-assigned one) and only courses offered in the selected track (not ignored-cancelled), the assigned course is written as taking place and was chosen or is instructed per the EXPORT's choice list, every course written as taking place has min_size <= new + ignored attendees and (new = 0 or new + ignored <= max_size) in terms of the export's sizes with defaults, and nobody is assigned to a course written as cancelled. HardOK of the solver's output is C01 (Props.C01_C08_cde for the CdE path). Writer theorems Props.C05_regs / C05_courses / C05_no_cancelled_assignment over the model of io::cdedb::write; end to end through the REAL binary: generated exports x option combinations -> import file -> (a) independent reference model of the partial import + the clauses of C05 in database ids (Python), (b) the Lean models: reader (CD.read), decoded assignment, writer equality, HardOK and RoomOK evaluated by the driver on the problem the model reads.",
+    "C05": {"text": "Props.C05_end_to_end (Props/C05E2E.lean; reader ∘ SOLVER ∘ writer with no hypothesis on the assignment: for every export the reader accepts (choice lists ≤ 50001 entries, course keys distinct as numbers), every room list and float behaviour, every thread count, schedule and reachable configuration of the search, the file written from the incumbent satisfies the clauses below), C05_total_end_to_end / C05_total_from_start (the run terminates within 5·treeSize + 3T + 3(T²+s) steps, no worker dies, and the incumbent at the end — if any — gives a consistent file). Props.C05_consistent (assembled: reader ∘ any HardOK assignment ∘ writer): for every export the reader accepts and every assignment satisfying the hard constraints of the problem that was read, the written registrations/courses objects name only registrations of the export with status participant in the selected part (never an ignored pre-assigned one) and only courses offered in the selected track (not ignored-cancelled), the assigned course is written as taking place and was chosen or is instructed per the EXPORT's choice list, every course written as taking place has min_size <= new + ignored attendees and (new = 0 or new + ignored <= max_size) in terms of the export's sizes with defaults, and nobody is assigned to a course written as cancelled. HardOK of the solver's output is C01 (Props.C01_C08_cde for the CdE path). Writer theorems Props.C05_regs / C05_courses / C05_no_cancelled_assignment over the model of io::cdedb::write; end to end through the REAL binary: generated exports x option combinations -> import file -> (a) independent reference model of the partial import + the clauses of C05 in database ids (Python), (b) the Lean models: reader (CD.read), decoded assignment, writer equality, HardOK and RoomOK evaluated by the driver on the problem the model reads.",
             "note": "io/cdedb.rs reader and writer are modelled by CD.read / CD.writeRegs / CD.writeCourses from the serde_json value on (bytes -> value is serde_json's). Distinctness of the course keys as parsed numbers (`NodupKeys`, e.g. no keys 7 and 07) is a hypothesis of clause (e) and of the by-key counts; the real database never produces such keys."},
-    "C06": {"text": "Theorem Props.C06: under a room list the incumbent's effective sizes, sorted descending, fit the descending room list rank by rank, for every eff function (no float reasoning), every T and schedule. RoomOK is also evaluated in Lean (native Float32) on every assignment the real code returns with rooms.",
+    "C06": {"text": "Theorem Props.C06: under a room list the incumbent's effective sizes, sorted descending, fit the descending room list rank by rank, for every eff function (no float reasoning), every T and schedule. RoomOK is also evaluated in Lean (native Float32) on every assignment the real code returns with rooms, in-process and end to end through the real binary on CdE exports with --rooms / --rooms-file and the room factor / offset field options (the problem is the one the Lean reader model builds from the same export and options, so a slip in the CLI glue between option and reader shows as a room violation).",
             "note": _NODE + " The effective size is the documented formula as evaluated in f32."},
-    "C07": {"text": "Theorems Props.C07_partial (perfect matching, score = weight, optimal) and C07_total (returns whenever a constrained perfect matching exists) about H2.run, all sizes/weights/masks; exact correspondence (matching array and score) on random matrices, Perfect/weight evaluated in Lean on the real output, brute-force optimum for <= 9 rows.",
-            "note": "hungarian.rs is modelled by H2.run (same iteration and tie-breaking). i32 overflow is not modelled (weights < 2^20 as in the property)."},
+    "C07": {"text": "Theorems Props.C07_partial (perfect matching, score = weight, optimal) and C07_total (returns whenever a constrained perfect matching exists) about H2.run, all sizes/weights/masks; i32 ARITHMETIC: H2B.run B (Model/HungarianI32.lean) is the same routine with every intermediate value (label sums, deltas, new labels, partial score sums, the LARGE_LABEL sentinel) range-checked against [-B, B); Props.C07_i32 / C07_i32_eq: for weights in [0, W] with (2·ny + 2)·W + 1 < B the checked routine returns exactly what the unbounded model returns (label bounds lx ∈ [−2·ny·W, W], ly ∈ [0, (2·ny+1)·W] by the alternating-tree telescoping argument), C07_i32_conv (the checked routine never returns anything else), C07_i32_caobab (B = 2^31, W = 50000: agreement for every matrix with up to 10 000 rows/columns — no i32 overflow in anything caobab can build), C07_i32_partial / C07_i32_total (optimality and totality restated for the checked routine). Exact correspondence (matching array and score) of BOTH models with the real routine (built with overflow checks) on random matrices incl. 64–100 column caobab-shaped ones, column-major layout, and weights up to 2^29 compared with the range-checked model; Perfect/weight evaluated in Lean on the real output, brute-force optimum for <= 9 rows.",
+            "note": "hungarian.rs is modelled by H2.run (unbounded integers, same iteration and tie-breaking) and by H2B.run (i32 range-checked). The score is checked against the signed range although the Rust type is u32 (stricter; irrelevant below 2^31)."},
     "C08": {"text": "Theorem Props.C08_score: the stored best score equals the documented score of the incumbent (all T, schedules, room lists). Props.C08_max_ge (theoretical maximum >= score, no hypothesis), C08_quality_lack / C08_quality_identity (score + total penalty = #participants-with-choices x 50000, so the reported lack is the mean penalty, instructors counting zero), C08_combined (overall quality with the external data), C08_quality_engine (lifted to the incumbent of the search). The real binary's quality object and summary are compared bit-exactly (f32) with the model's exact fractions; the external rank of ignored pre-assigned attendees is part of the exact reader correspondence.",
             "note": _NODE + " InstOK2 adds: no instructor listed twice (both readers guarantee it), penalties <= 50000."},
     "C09": {"text": "Theorems Props.C09 / C09_none_iff: for arbitrary node solvers with Bounded trees, every T >= 1 and schedule, the finished engine holds a solution of maximal score, or none iff the tree has no feasible node. Real runs on random synthetic trees under seeded schedules are replayed through the model and compared with the max leaf.",
             "note": _ENG},
     "C10": {"text": "Theorems Props.C10_node / C10_tree: no panic site of run_bab_node (11 sites + the Hungarian routine's own) is reachable at any node of the search tree of a well-formed instance with num_min <= num_max. The CLI half (exit status 0/1, no output file on 1) is checked on the real binary once the cli streams are built.",
             "note": _NODE + " f32 behaviour is a parameter (after fix F9 totality needs no float property)."},
-    "C11": {"text": "Props.C11_consistent (assembled): ignored pre-assigned registrations are never named in the file; a course with ignored people is fixed, treated as taking place and written active; original minimum met and original maximum respected counting both groups (ignoredCount defined on the EXPORT); with --ignore-cancelled no cancelled course of the track appears in the file at all. Arithmetic and writer theorems about adapt_course_for_invisible_participants (places reserved: max counting pre-assigned, min counting both groups, course fixed, fixed course written active) + exact correspondence of the reader (incl. invisible counts, hidden names, external quality data) on generated exports with arbitrary existing assignments, all four option combinations, and the end-to-end consistency oracle with both-groups counts through the real binary.",
+    "C11": {"text": "Props.C11_end_to_end (reader ∘ solver ∘ writer: the clauses below hold for the file written from the incumbent of every reachable configuration of the search on every accepted export, all room lists, thread counts and schedules). Props.C11_consistent (assembled): ignored pre-assigned registrations are never named in the file; a course with ignored people is fixed, treated as taking place and written active; original minimum met and original maximum respected counting both groups (ignoredCount defined on the EXPORT); with --ignore-cancelled no cancelled course of the track appears in the file at all. Arithmetic and writer theorems about adapt_course_for_invisible_participants (places reserved: max counting pre-assigned, min counting both groups, course fixed, fixed course written active) + exact correspondence of the reader (incl. invisible counts, hidden names, external quality data) on generated exports with arbitrary existing assignments, all four option combinations, and the end-to-end consistency oracle with both-groups counts through the real binary.",
             "note": "Model CD.read/CD.adapt; the room offset change is applied natively (f32) by the driver. Room fitting with both groups rests on the offset correspondence (f32) and C06."},
     "C12": {"text": "Theorems Props.C12_read (assembled characterisation of CD.read: participants = the registrations of the selected part with status participant, not ignored, having a valid choice or instructing a kept course, in key order; courses = offered (and not ignored) ones, stably sorted by the padded number; instructor indices point at the instructing registration), C12_choices (penalty = position in the ORIGINAL list, skipped courses leave gaps), C12_courses, refusals (kind, version, no track, two tracks unselected, unknown track), defaults from the re-extracted constants; exact correspondence of CD.read with io::cdedb::read (courses, participants, choices/penalties, sizes, f32 factor/offset bits, ambience data, Ok/Err) on generated exports incl. single-field corruptions; an independent declarative re-statement (Python) as oracle.",
             "note": "Model starts at the serde_json value; timestamp syntax by a simplified recogniser exact on the generator's domain; canonical decimal keys only."},
